@@ -707,3 +707,45 @@ impl tower::Service<Request<Bytes>> for Svc {
         })
     }
 }
+
+// ---------------------------------------------------------------------------------------------
+// the harness service behind anemo's typed-RPC server path (what generated servers use)
+// ---------------------------------------------------------------------------------------------
+
+#[derive(Clone)]
+struct StatusSvc(Svc);
+
+impl tower::Service<Request<Bytes>> for StatusSvc {
+    type Response = Response<Bytes>;
+    type Error = anemo::rpc::Status;
+    type Future = Pin<Box<dyn Future<Output = Result<Response<Bytes>, anemo::rpc::Status>> + Send>>;
+    fn poll_ready(&mut self, _cx: &mut Context<'_>) -> Poll<Result<(), Self::Error>> {
+        Poll::Ready(Ok(()))
+    }
+    fn call(&mut self, req: Request<Bytes>) -> Self::Future {
+        let f = tower::Service::call(&mut self.0, req);
+        Box::pin(async move { Ok(f.await.unwrap()) })
+    }
+}
+
+/// `Svc` reached through `anemo::rpc::server::Rpc::unary` with the identity codec, i.e. the way an
+/// anemo-build generated server dispatches a method.
+#[derive(Clone)]
+pub struct TypedSvc(pub Svc);
+
+impl tower::Service<Request<Bytes>> for TypedSvc {
+    type Response = Response<Bytes>;
+    type Error = Infallible;
+    type Future = Pin<Box<dyn Future<Output = Result<Response<Bytes>, Infallible>> + Send>>;
+    fn poll_ready(&mut self, _cx: &mut Context<'_>) -> Poll<Result<(), Infallible>> {
+        Poll::Ready(Ok(()))
+    }
+    fn call(&mut self, req: Request<Bytes>) -> Self::Future {
+        let inner = StatusSvc(self.0.clone());
+        Box::pin(async move {
+            use anemo::rpc::codec::IdentityCodec;
+            let mut rpc = anemo::rpc::server::Rpc::new(IdentityCodec::new("bytes"), IdentityCodec::new("bytes"));
+            Ok(rpc.unary(inner, req).await)
+        })
+    }
+}
